@@ -31,7 +31,7 @@ func logGlob() string {
 	return ""
 }
 
-var fnLine = regexp.MustCompile(`^  ([^\s(]+)\(`)
+var fnLine = regexp.MustCompile(`^  (\S+)\(\)$`)
 
 // Collect parses every report written so far by this process and its children.
 // pkgFilter, if non-empty, restricts InRepo to frames containing one of the substrings.
